@@ -5,6 +5,7 @@ Import ListNotations.
 From Verif Require Import C01.Lisp C01.Py C01.Gen C01.Sim C01.Top.
 From Verif Require C01.FLisp C01.FCorr C01.FRefuted.
 From Verif Require C01L.LLisp C01L.LGen C01L.LTop.
+From Verif Require C01X.XLisp C01X.XGen C01X.XTop.
 
 (** PARTIAL: for programs without a hoisting hazard the compiled code produces exactly the
     source-order effect trace (every traced sub-expression on the taken path once, none on
@@ -26,6 +27,24 @@ Theorem C02_order_loops_partial : forall fuel e v tr,
   exists m, forall m', (m <= m')%nat -> LGen.lrun m' e = Some (v, tr).
 Proof. exact LTop.lcompile_correct. Qed.
 
+(** with throw and try/catch/finally: the effects performed before an exception is raised, by
+    the handler and by the finally clause happen in source order, and nothing after the raise
+    point runs, also when the exception leaves the program (trace component of
+    C01_compile_correct_exceptions_partial) *)
+Theorem C02_order_exceptions_partial : forall fuel e o tr,
+  XLisp.xeval fuel (fun _ => None) e = Some (o, tr) -> XGen.hazard_free e = true ->
+  match o with
+  | XLisp.OVal v => exists m, forall m', (m <= m')%nat -> XGen.xrun m' e = Some (XGen.XRVal v tr)
+  | XLisp.OExc c _ => exists m, forall m', (m <= m')%nat -> XGen.xrun m' e = Some (XGen.XRExc c tr)
+  | XLisp.ORec _ => True
+  end.
+Proof. exact XTop.xcompile_correct. Qed.
+Example C02_effects_around_exceptions :
+  XGen.hazard_free XTop.caught = true /\
+  XLisp.xeval 30 (fun _ => None) XTop.caught = Some (XLisp.OVal (VExc 1 (VInt 7)), [VInt 1; VInt 3; VInt 4]) /\
+  XGen.xrun 30 XTop.caught = Some (XGen.XRVal (VExc 1 (VInt 7)) [VInt 1; VInt 3; VInt 4]).
+Proof. exact XTop.caught_ok. Qed.
+
 (** the same witness as a collection literal of the full fragment *)
 Theorem C02_hoist_literal_refuted :
   exists e, FCorr.spec e = FLisp.RVal (FLisp.OVec [FLisp.OInt 1; FLisp.OInt 2]) [FLisp.OInt 1; FLisp.OInt 2]
@@ -43,3 +62,5 @@ Print Assumptions C02_order_loops_partial.
 Print Assumptions C02_recur_in_try_refuted.
 Print Assumptions C02_hoist_literal_refuted.
 Print Assumptions C02_hoist_refuted.
+Print Assumptions C02_order_exceptions_partial.
+Print Assumptions C02_effects_around_exceptions.
